@@ -7,8 +7,8 @@ CONSTANTS
   B = 2
   Dur = 3
   Per = 2
-  MaxTime = 11
-  MaxEvents = 8
+  MaxTime = 10
+  MaxEvents = 7
   ForgetWindow = FALSE
 INVARIANTS ExactWindow AllowlistNeverDropped AnyAlwaysDropped BackoffSound
 PROPERTY SubnetIsolation
